@@ -87,6 +87,15 @@ func c19State(seed uint64, k int) state.ClusterState {
 
 const c19Saves = 4
 
+// c19ShortState is the shortest member of the family (no extra nodes, short ids).
+func c19ShortState() state.ClusterState {
+	st := c19State(0, 0)
+	st.Nodes = st.Nodes[:3]
+	st.Revision = 7
+	st.AppliedRaftIndex = 7
+	return st
+}
+
 // TestVerifC19Child is the crash victim. It does nothing unless selected by env.
 func TestVerifC19Child(t *testing.T) {
 	dir := os.Getenv(c19ChildEnv)
@@ -270,6 +279,30 @@ func TestVerifC19Kill(t *testing.T) {
 				if r.WantSample() && begun != ended {
 					r.Sample(map[string]any{"killed_at": fmt.Sprintf("%s #%d", cl, n), "save_in_flight": begun, "last_completed": ended, "loaded_save": which, "temp_files_left": len(tmps)})
 				}
+			}
+			// Continuation after the crash: a restarted process keeps saving into the same
+			// directory (whatever the killed Save left behind). Every later completed Save
+			// must again load back exactly, for states shorter and longer than any leftover.
+			for j, cs := range []state.ClusterState{c19ShortState(), c19State(seed, 50+n%7), c19ShortState()} {
+				wantEnc, eerr := state.Encode(cs)
+				if eerr != nil {
+					t.Fatalf("encode continuation state: %v", eerr)
+				}
+				if serr := st.Save(context.Background(), cs); serr != nil {
+					r.Violation("save-after-crash-failed", c19With(wit, "err", serr.Error()))
+					break
+				}
+				got2, lerr := st.Load(context.Background())
+				if lerr != nil {
+					r.Violation("load-error-after-post-crash-save", c19With(c19With(wit, "err", lerr.Error()), "continuation_step", j))
+					break
+				}
+				enc2, _ := state.Encode(got2)
+				if !bytes.Equal(enc2, wantEnc) {
+					r.Violation("post-crash-save-loaded-differently", c19With(wit, "continuation_step", j))
+					break
+				}
+				r.Count("kill.post_crash_save_roundtrips", 1)
 			}
 			os.RemoveAll(dir)
 		}
